@@ -1,6 +1,7 @@
 import HeartwoodModel.Model.ChangeGraph
 import HeartwoodModel.Driver.Util
 import HeartwoodModel.Driver.C05
+import HeartwoodModel.Driver.C04
 /-! Driver entry for C06. Case: `<changes> <tips> ord=<ranks>` (syntax of `Driver/C05.lean`, one tip
 set). Output: `<evaluation of the whole history>=><evaluation of the surviving history on its own>`
 (the second is `-` when the first is not an object). The surviving history is loaded through the tips
@@ -8,8 +9,38 @@ of the pruned graph, as the harness does with the real code. -/
 namespace HeartwoodModel.Driver.C06
 open HeartwoodModel.Dag HeartwoodModel.ChangeGraph HeartwoodModel.Driver.Util HeartwoodModel.Driver.C05
 
+/-- Identity family: the `op` model of `Model/Identity.lean` (C04) replayed along the evaluation order of
+the surviving sub-history (`order2`, observed on the real code), without the completeness check of
+`orderOk` (the ops pruned in the whole history are simply never reached). -/
+def runSub (order2 : String) (args : List String) : String :=
+  match args with
+  | "id" :: repoDoc :: docs :: _sigs :: vt :: _order :: ops =>
+    match nat? repoDoc, C04.parseDocs docs, C04.parseV vt, C04.parseOrder order2 with
+    | some repoDoc, some docs, some vt, some order =>
+      match ops.mapM (C04.parseOp docs) with
+      | some (root :: rest) =>
+        let all := root :: rest
+        let V := C04.mkV vt
+        let embedded : Option HeartwoodModel.Identity.IdDoc := match root.actions with
+          | [.revision _ d _ _] => d
+          | _ => none
+        match HeartwoodModel.Identity.fromRoot V (C04.toOp 0 false root) embedded repoDoc with
+        | .error .panic => "init-panic"
+        | .error _ => "init-err"
+        | .ok s0 =>
+          match C04.evalOrder V all s0 order [] [] with
+          | none => "bad-op"
+          | some (s, rs, _) => s!"r={C08.dash (joinWith "" rs)};{C04.showIdentity s}"
+      | _ => "bad-op"
+    | _, _, _, _ => "bad-op"
+  | _ => "bad-op"
+
 def run (args : List String) : String :=
   match args with
+  | "idc" :: order2 :: rest =>
+    let first := C04.run rest
+    if first == "init-err" || first == "init-panic" then first ++ "=>-"
+    else first ++ "=>" ++ runSub order2 rest
   | [changes, tips, ord] =>
     match parseCase changes ord, parseRefs tips ',' with
     | some c, some tips =>
